@@ -2,6 +2,7 @@
    inflate / deflate are parameters (Section variables of OasisCblock.v), every theorem holds for EVERY function put there.
    Theorem-only file: every proof is `exact <lemma>`; Print Assumptions under each. *)
 Require Import Base OasisInt OasisSpec OasisSpecProofs OasisRead OasisCblock OasisCblockProofs.
+Require Import OasisWrite OasisWriteProofs OasisRoundtrip OasisCblockWrite OasisCblockWriteProofs.
 Local Open Scope N_scope.
 
 (* (1) conservative extension: a stream on which the reader model of OasisRead.v never meets record 34 gives the same outcome
@@ -23,9 +24,10 @@ Theorem cblock_splice : forall inflate n f st usize z x post,
 Proof. exact cblock_splice_lemma. Qed.
 Print Assumptions cblock_splice.
 
-(* the same for whole files: hdr = magic + START, pre = records the loop runs through whatever follows them *)
+(* the same for whole files: hdr = magic + START, pre = records the loop runs through (in both files) before the block *)
 Theorem cblock_splice_file : forall inflate hdr u pre st usize z x post r1 r2,
-  start_of hdr u -> rsteps (q_init u) pre st ->
+  start_of hdr u ->
+  rsteps (cblock_rec usize z ++ post) (q_init u) pre st -> rsteps (x ++ post) (q_init u) pre st ->
   usize < two32 -> N.of_nat (length z) < two32 ->
   inflate z usize = Some x -> N.of_nat (length x) = usize ->
   blk_ok (S (S (length (x ++ post)))) st (mkS (x ++ post) None) (mkB 0 usize) = true ->
@@ -36,7 +38,7 @@ Proof. exact cblock_splice_file_lemma. Qed.
 Print Assumptions cblock_splice_file.
 
 (* inside a block that is not crossed the loop does what it does in the file (used for the writer's cell bodies) *)
-Theorem cblock_block_steps : forall inflate st rs st', rsteps st rs st' -> forall n f rest ob,
+Theorem cblock_block_steps : forall inflate rest st rs st', rsteps rest st rs st' -> forall n f ob,
   blk_wf ob -> fits ob (N.of_nat (length (concat rs))) ->
   r_loop_c inflate n (length rs + f) st (mkS (concat rs ++ rest) None) ob =
   r_loop_c inflate n f st' (mkS rest None) (adv_s ob (N.of_nat (length (concat rs)))).
@@ -74,3 +76,46 @@ Theorem cblock_final_not_lib : forall inflate st s ob r,
   h_cblock inflate st s ob = SC_final r -> ~ is_lib r.
 Proof. exact cblock_final_not_lib_lemma. Qed.
 Print Assumptions cblock_final_not_lib.
+
+(* (4) the round trip holds under compression for EVERY correct codec: loading (reader model with CBLOCK) what the writer
+   model with compression_level > 0 saved gives what the uncompressed pair gives, i.e. the library
+   (oas_models_roundtrip_full), for every well-formed library of the covered subset whose cell bodies and their deflated
+   forms are shorter than 2^32 bytes (the (uInt) casts of both routines), with OASIS_CONFIG_PROPERTY_CELL_OFFSET off *)
+Theorem oas_roundtrip_compressed : forall inflate deflate cfg l,
+  (forall x, inflate (deflate x) (N.of_nat (length x)) = Some x) ->
+  wlib_ok l -> wlib_small l -> cfg_cell_offset cfg = false ->
+  Forall (chunk_ok deflate) (cell_chunks l) ->
+  read_oas_model_c inflate (write_oas_model_c deflate cfg l) = CR (read_oas_model (write_oas_model cfg l)).
+Proof. exact oas_roundtrip_compressed_lemma. Qed.
+Print Assumptions oas_roundtrip_compressed.
+
+Theorem oas_roundtrip_compressed_is_library : forall inflate deflate cfg l,
+  (forall x, inflate (deflate x) (N.of_nat (length x)) = Some x) ->
+  wlib_ok l -> wlib_small l -> cfg_cell_offset cfg = false ->
+  Forall (chunk_ok deflate) (cell_chunks l) ->
+  read_oas_model_c inflate (write_oas_model_c deflate cfg l) = CR (Ok (OasisRead.view (view_w cfg l))).
+Proof. exact oas_roundtrip_compressed_view. Qed.
+Print Assumptions oas_roundtrip_compressed_is_library.
+
+(* (4') with or without OASIS_CONFIG_PROPERTY_CELL_OFFSET: loading the compressed file gives the library with the CELL-record
+   positions of THAT file in its S_CELL_OFFSET properties (view_w_c).  Well-formedness is asked of [bake cfg l offs], the library
+   whose cells already carry those properties (what remove_property / set_property leave in cell->properties) *)
+Theorem oas_roundtrip_compressed_offsets : forall inflate deflate cfg l,
+  (forall x, inflate (deflate x) (N.of_nat (length x)) = Some x) ->
+  wlib_ok (bake cfg l (runc_offsets (write_oas_run_c deflate cfg l))) ->
+  wlib_small (bake cfg l (runc_offsets (write_oas_run_c deflate cfg l))) ->
+  Forall (chunk_ok deflate) (cell_chunks l) ->
+  read_oas_model_c inflate (write_oas_model_c deflate cfg l) = CR (Ok (OasisRead.view (view_w_c deflate cfg l))).
+Proof. exact oas_roundtrip_compressed_offsets_lemma. Qed.
+Print Assumptions oas_roundtrip_compressed_offsets.
+
+(* with OASIS_CONFIG_PROPERTY_CELL_OFFSET on the equation with the UNCOMPRESSED pair is false (the property values are file
+   positions): witness *)
+Theorem oas_roundtrip_compressed_cell_offset_refuted_thm :
+  exists inflate deflate l,
+    (forall x, inflate (deflate x) (N.of_nat (length x)) = Some x) /\ wlib_ok l /\ wlib_small l /\
+    Forall (chunk_ok deflate) (cell_chunks l) /\
+    read_oas_model_c inflate (write_oas_model_c deflate (mkWCfg true) l) <>
+    CR (read_oas_model (write_oas_model (mkWCfg true) l)).
+Proof. exact oas_roundtrip_compressed_cell_offset_refuted. Qed.
+Print Assumptions oas_roundtrip_compressed_cell_offset_refuted_thm.
